@@ -259,6 +259,12 @@ func TestC18Binding(t *testing.T) {
 			if err := c18decode(encodeRefBlock(rev, hdr, -1), rev, res); err == nil || !strings.Contains(err.Error(), "zzz") {
 				rt.Fatalf("[%s] zero-row header with a wrong name returned %v", class, err)
 			}
+			// ... and so is a header whose column type conflicts with the target (types are checked without rows too).
+			hdr[0].Name = cols[0].Name
+			hdr[0].T = cols[1].Kind.T
+			if err := c18decode(encodeRefBlock(rev, hdr, -1), rev, res); err == nil || isPanic(err) {
+				rt.Fatalf("[%s] zero-row header block announcing %s for a %s target was accepted (%v)", class, cols[1].Kind.T.Name, cols[0].Kind.T.Name, err)
+			}
 		case "custom-serialization":
 			if rev < ref.RevCustomSerialization {
 				rt.Skip("flag does not exist at this revision")
